@@ -28,6 +28,7 @@ type Engine struct {
 	externs   *ContractSet
 	slicedArr map[string]map[types.Object]bool
 	hasSend   map[string]bool
+	sentOn    map[string]map[string]bool
 	closures  map[string]*closure
 	typeCache map[string]types.Type
 	regionSorts map[string]string
@@ -37,7 +38,7 @@ type Engine struct {
 func NewEngine(repo, verif string) *Engine {
 	return &Engine{repo: repo, verif: verif, modPath: "github.com/pinealctx/neptune", pkgs: map[string]*packages.Package{},
 		typesPkgs: map[string]*types.Package{}, csByPkg: map[string]*ContractSet{}, csPkg: map[*ContractSet]*types.Package{},
-		slicedArr: map[string]map[types.Object]bool{}, hasSend: map[string]bool{}, closures: map[string]*closure{}, typeCache: map[string]types.Type{}, regionSorts: map[string]string{}}
+		slicedArr: map[string]map[types.Object]bool{}, hasSend: map[string]bool{}, sentOn: map[string]map[string]bool{}, closures: map[string]*closure{}, typeCache: map[string]types.Type{}, regionSorts: map[string]string{}}
 }
 
 func (eng *Engine) Load(patterns ...string) error {
